@@ -878,17 +878,20 @@ def probe_all():
             return False
     state = g("state", probe_finalises)
     return {"dt": g("dt", probe_session_dt), "clock": g("clock", probe_clock), "final": state and g("final", probe_finalises_lookback), "state": state,
-            "run": g("run", probe_run_resets), "keep": g("keep", probe_keeps_memo), "perkey": g("perkey", probe_per_key), "views": g("views", probe_views_current)}
+            "run": g("run", probe_run_resets), "keep": g("keep", probe_keeps_memo), "perkey": g("perkey", probe_per_key), "views": g("views", probe_views_current),
+            "sclock": g("sclock", lambda: not session_runspecs(FIXED_SESSION_RUNSPECS[0], None)),      # begin_session(settings={runspecs {dt 0.5}}) walks the 9-point grid
+            "dfgrid": g("dfgrid", lambda: not multi_scenario_batch(FIXED_MULTI_BATCH[0]))}             # two scenarios, both listing orders, df = dict = json on each own grid
 
 
 def gen_lean(f):
     b = lambda x: "true" if x else "false"
     cfg = (f"def cfg : Cfg := {{ sessionDtFromScenario := {b(f['dt'])}, stepClockNormalised := {b(f['clock'])}, "
-           f"stepFinalisesAll := {b(f['final'])}, stepFinalisesState := {b(f['state'])}, runResetsOnAnySettings := {b(f['run'])}, changeEquationKeepsMemo := {b(f['keep'])}, settingsAppliedPerKey := {b(f['perkey'])}, viewsDeriveFromCurrentLog := {b(f['views'])} }}\n")
-    if f["dt"] and f["clock"] and f["final"] and f["run"] and f["keep"] and f["perkey"] and f["views"]:
+           f"stepFinalisesAll := {b(f['final'])}, stepFinalisesState := {b(f['state'])}, runResetsOnAnySettings := {b(f['run'])}, changeEquationKeepsMemo := {b(f['keep'])}, settingsAppliedPerKey := {b(f['perkey'])}, viewsDeriveFromCurrentLog := {b(f['views'])}, sessionClockFromAppliedSettings := {b(f['sclock'])}, dfKeepsEveryScenarioGrid := {b(f['dfgrid'])} }}\n")
+    if f["dt"] and f["clock"] and f["final"] and f["run"] and f["keep"] and f["perkey"] and f["views"] and f["sclock"] and f["dfgrid"]:
         body = "theorem holds : C09_full cfg := C09_full_of_good cfg (by decide)\n#print axioms holds\n"
     else:
-        thm = ("C09_witness_session_dt cfg (by decide)" if not f["dt"] else "C09_witness_clock cfg (by decide)" if not f["clock"] else
+        thm = ("C09_witness_session_clock cfg (by decide)" if not f["sclock"] else "C09_witness_df_first_index cfg (by decide)" if not f["dfgrid"] else
+               "C09_witness_session_dt cfg (by decide)" if not f["dt"] else "C09_witness_clock cfg (by decide)" if not f["clock"] else
                "C09_witness_run_runspecs_only cfg (by decide)" if (f["final"] and not f["run"]) else
                "C09_witness_memo_dropped cfg (by decide) (by decide)" if (f["final"] and not f["keep"]) else
                "C09_witness_last_value cfg (by decide) (by decide)" if (f["final"] and not f["perkey"]) else
@@ -1190,7 +1193,7 @@ def run(chk):
                        "the look-back `delay(g, 2*dt)` is rendered in C08's expression language as two one-step delays (auxiliary g1 = delay(g, dt)); values coincide"]
     rng = chk.rng.fork("c09")
     cases = fixed_cases() + [gen_case(rng) for _ in range(220 if chk.quick else 3000)]
-    req, exp, owner = ["cfg %d %d %d %d %d %d %d %d" % (facts["dt"], facts["clock"], facts["final"], facts["state"], facts["run"], facts["keep"], facts["perkey"], facts["views"])], ["ok"], [None]
+    req, exp, owner = ["cfg %d %d %d %d %d %d %d %d %d %d" % (facts["dt"], facts["clock"], facts["final"], facts["state"], facts["run"], facts["keep"], facts["perkey"], facts["views"], facts["sclock"], facts["dfgrid"])], ["ok"], [None]
     found, skipped, dist = {}, 0, {"dt": {}, "calls": {}, "eqsets": {}}
     for idx, case in enumerate(cases):
         try:
@@ -1392,13 +1395,16 @@ def run(chk):
         "keep": ("case", dict(probe_case(1.0, 8, [2], [("steps", 3, None), ("step", 10.0), ("steps", 2, None)]), family="direct"), "settings-leak-one-step-back", "C09_witness_memo_dropped"),
         "perkey": ("case", dict(probe_case(1.0, 4, [0, 4], [("step", None), ("step", (("c", 5.0), ("d", 7.0)))]), family="two", d0=0.5), "settings-dictionary-per-key", "C09_witness_last_value"),
         "views": ("lifecycle", FIXED_LIFECYCLES[0], "session-views-lifecycle", "C09_witness_view_cache"),
+        "sclock": ("session_runspecs", FIXED_SESSION_RUNSPECS[0], "session-runspecs-settings", "C09_witness_session_clock"),
+        "dfgrid": ("multi_scenario_batch", FIXED_MULTI_BATCH[0], "batch-formats-multi-scenario", "C09_witness_df_first_index"),
     }
     any_concrete = bool(found) or bool(seq_found) or bool(life_found) or bool(srs_found) or bool(mb_found)
     for fact, (kind, fcase, key, witness) in fallbacks.items():
         if facts[fact] or any_concrete:
             continue
         try:
-            pr = (run_case(fcase, facts)[2] if kind == "case" else run_sequence(fcase, facts)[2] if kind == "sequence" else lifecycle(fcase, facts)[2])
+            pr = (run_case(fcase, facts)[2] if kind == "case" else run_sequence(fcase, facts)[2] if kind == "sequence" else
+                  session_runspecs(fcase, facts) if kind == "session_runspecs" else multi_scenario_batch(fcase) if kind == "multi_scenario_batch" else lifecycle(fcase, facts)[2])
         except BaseException as ex:  # noqa
             pr = []
         if pr:
